@@ -28,7 +28,7 @@ PROPERTY = 'C14'
 TECHNIQUE = 'symbolic execution of the real integer layers and their fake-quantised counterparts on z3 integer activations (one unsat query per output element); binary_search on a z3 real against clamp(ceil(x/div)); concrete range observations of stored tensors'
 FUNCTIONS_ENCODED = ['binary_search', 'MATCHConv2d/MATCHLinear.__init__/forward/_integer_approximation (runs natively at construction)', 'MAUPITIConv2d/MAUPITILinear.__init__/forward',
                      'QuantConv2d/QuantLinear.forward', 'PACTActSTE.forward', 'integerize_arch (graph rewrite natively)']
-BOUNDS = {'quick': 'binary_search: div = 2^-s (s = 0..6), ranges [1, H] with H in {1,2,3,8,33,64}; nets: Conv2d(1,2,2)-ReLU-flatten-Linear(8,2) on 3x3 inputs and Linear-ReLU-Linear, bits {8,4}, MATCH (24,24) and MAUPITI; MATCH also with the input at another precision than the layer outputs (4 vs 8) and scale_bit 16 / 12 with the default shift range; large / mixed biases; construction variants bias on/off, dilation (2,1)/(1,2)',
+BOUNDS = {'quick': 'binary_search: div = 2^-s (s = 0..6), ranges [1, H] with H in {1,2,3,8,33,64}; nets: Conv2d(1,2,2)-ReLU-flatten-Linear(8,2) on 3x3 inputs and Linear-ReLU-Linear, bits {8,4}, MATCH (24,24) and MAUPITI; MATCH also with the input at another precision than the layer outputs (4 vs 8) and scale_bit 16 / 12 with the default shift range; large / mixed biases; construction variants bias on/off, dilation (2,1)/(1,2); integer network built right after a checkpoint with other weights / clipping values was loaded (no forward pass in between); nets whose only large biases are negative',
           'thorough': 'bits {2,4,8}, MATCH (16,32) options, fully-convolutional final layer, 2 channels depthwise'}
 OUTSIDE = ['ONNX export (package missing)', 'CUDA', 'the DIANA backend', 'whole-network error accumulation (per-layer comparison on the integer network\'s own activations, as the statement prescribes)']
 ASSUMPTIONS = ['integer activations within the declared range of the layer input', 'weights, biases and scales are concrete (those of a tiny trained-like model with dyadic weights); _integer_approximation runs concretely']
